@@ -339,8 +339,14 @@ func (s *Sched) yield(g *G, site string) {
 	<-g.wake
 }
 
+// PointLog, when non-nil, records every scheduling point passed (debugging).
+var PointLog *[]string
+
 func (s *Sched) point(g *G, site string) {
 	s.steps++
+	if PointLog != nil {
+		*PointLog = append(*PointLog, g.Name+"@"+site)
+	}
 	if s.steps > s.cfg.MaxSteps {
 		s.stepLimit = true
 		s.mu.Lock()
